@@ -140,7 +140,7 @@ theorem implFn_goName (tr m : Name) (ty : Ty) (hm : colonFree m = true) :
     unfold endsWith implDefName traitImplFnName
     have : ([':', ':'] ++ entrySrc).reverse = ['n', 'i', 'a', 'm', ':', ':'] := by decide
     rw [this]
-    simp only [List.reverse_append, List.reverse_cons, List.reverse_nil, List.nil_append, List.append_assoc,
+    simp only [List.reverse_append, List.reverse_cons, List.nil_append, List.append_assoc,
       List.cons_append]
     apply not_prefix_of_sep (d := ':') (by simp)
     · simp only [colonFree, List.all_eq_true, bne_iff_ne, ne_eq] at hm
